@@ -15,7 +15,7 @@ BOUNDS = dict(dimension='1-2 (2-D cubic and akima: concrete table, symbolic quer
               akima='free symbolic values on <= 3 table entries around the cell, the rest concrete (each symbolic slope difference forks on its sign)')
 STUBS = ['np proxy', 'module-global float pass-through in general_utils/system (Problem runs)']
 ASSUMPTIONS = ['query points strictly inside a cell or on a node as selected by the bracketing path (one-sided at cell boundaries)', 'reals']
-OUTSIDE = ['scipy_* methods', 'bsplines (its basis matrix is a scipy.sparse matrix, which cannot carry symbolic entries; no sparse stub is installed for it)', 'derivatives w.r.t. the grid coordinates', 'akima smoothing option delta_x > 0 (default is 0... uses the plain absolute value)']
+OUTSIDE = ['scipy_* methods', 'akima derivatives under extrapolation in an earlier dimension (isolated non-differentiable query points, see harnesses())', 'bsplines (its basis matrix is a scipy.sparse matrix, which cannot carry symbolic entries; no sparse stub is installed for it)', 'derivatives w.r.t. the grid coordinates', 'akima smoothing option delta_x > 0 (default is 0... uses the plain absolute value)']
 
 
 def harnesses(tier, seed):
@@ -40,6 +40,15 @@ def harnesses(tier, seed):
     # InterpND.gradient() on a fresh interpolant and after an interpolate() call at the same / another point (concrete table)
     for m in ['slinear', 'lagrange2', 'lagrange3', 'akima', 'cubic', '2D-slinear', '2D-lagrange2', '2D-lagrange3']:
         jobs.append(dict(fn='h_gradient', params=dict(method=m), max_paths=20000))
+    # extrapolation in the first dimension (a fixed point outside the grid), derivative along the second one
+    # (akima is left out here: along an extrapolated line its slope differences tie at isolated query points for every table
+    # tried, the weights |m_i - m_j| are not differentiable there and the solver finds exactly those points)
+    for m in ['cubic', 'slinear', 'lagrange2'] if q else ['cubic', 'slinear', 'lagrange2', 'lagrange3', '2D-slinear', '2D-lagrange2', '2D-lagrange3']:
+        for where in ('above', 'below'):
+            jobs.append(dict(fn='h_gradient', params=dict(method=m, where=where, tseed=5), max_paths=20000))
+    # training data changed between two runs of the same problem (training_data_gradients)
+    for m in ['slinear', 'lagrange2', 'lagrange3', 'cubic'] + ([] if q else ['akima', '1D-slinear', '1D-lagrange2', '1D-lagrange3', '1D-akima']):
+        jobs.append(dict(fn='h_mm', params=dict(method=m, dim=1, reruns=1), max_paths=20000))
     for m in ['slinear', 'lagrange2', 'lagrange3', 'cubic'] + ([] if q else ['akima']):
         jobs.append(dict(fn='h_spline', params=dict(method=m, vec=1 if q else 2), max_paths=20000))
     return jobs
@@ -104,7 +113,7 @@ def h_dx(ctx, method, grids, npts):
     ctx.observe('d_dx', d_dx)
 
 
-def h_mm(ctx, method, dim):
+def h_mm(ctx, method, dim, reruns=0):
     """MetaModelStructuredComp with training_data_gradients: partials wrt the query and wrt every training value"""
     _install(ctx)
     names = ['cross', 'neg0'][:dim]
@@ -114,6 +123,9 @@ def h_mm(ctx, method, dim):
     shape = tuple(npts)
     t, syms, idxs = _table(ctx, method, shape)
     xs = [ctx.real(f'x{d}', float(grid[d][0]), float(grid[d][-1])) for d in range(dim)]
+    for d in range(dim):        # on a node the derivative is one-sided (the float replay differentiates across it)
+        for gv in grid[d]:
+            ctx.assume(xs[d] != float(gv))
     p = om.Problem()
     comp = om.MetaModelStructuredComp(method=method, extrapolate=True, training_data_gradients=True, vec_size=1)
     for d in range(dim):
@@ -124,6 +136,16 @@ def h_mm(ctx, method, dim):
     p.final_setup()
     for d in range(dim):
         p.set_val(f'mm.x{d}', xs[d])
+    for k in range(reruns):
+        # an earlier run of the same problem with other training data (and another point): nothing of it may survive
+        for d in range(dim):
+            p.set_val(f'mm.x{d}', ctx.const(float(grid[d][1]) + 0.125))
+        rng0 = np.random.default_rng(17 + k)
+        p.set_val('mm.f_train', ctx.consts(rng0.integers(-9, 10, size=shape).tolist()))
+        p.run_model()
+        p.compute_totals(of=['mm.f'], wrt=[f'mm.x{d}' for d in range(dim)] + ['mm.f_train'])
+        for d in range(dim):
+            p.set_val(f'mm.x{d}', xs[d])
     p.set_val('mm.f_train', t)
     p.run_model()
     val = np.asarray(p.get_val('mm.f')).reshape(-1)[0]
@@ -212,19 +234,20 @@ def h_spline(ctx, method, vec):
     ctx.observe('yi', yi)
 
 
-def h_gradient(ctx, method):
+def h_gradient(ctx, method, where='inside', tseed=3):
     """gradient(x) is the derivative of interpolate(x) whatever was asked of the interpolant before: nothing, a plain
     interpolate(x), an interpolate with derivatives at another point"""
     dim = 2
     grid = _grid(ctx, ['cross', 'neg0'], [5, 5])
-    rng = np.random.default_rng(3)
+    rng = np.random.default_rng(tseed)
     t = ctx.consts(rng.integers(-9, 10, size=(5, 5)).tolist())
     xs = [ctx.real(f'x{d}', float(grid[d][0]), float(grid[d][-1])) for d in range(dim)]
     symdims = list(range(dim))
-    if base(method) == 'akima':
+    if base(method) == 'akima' or where != 'inside':
         # the second-dimension akima weights are |differences| of the first-dimension results: with a symbolic x0 they are
-        # absolute values of cubics in x0 and z3 does not finish; x0 is a fixed interior point, x1 stays symbolic
-        xs[0] = ctx.const(0.7)
+        # absolute values of cubics in x0 and z3 does not finish; x0 is a fixed point (interior, or outside the grid:
+        # extrapolation), x1 stays symbolic
+        xs[0] = ctx.const({'inside': 0.7, 'above': float(grid[0][-1]) + 0.75, 'below': float(grid[0][0]) - 0.5}[where])
         symdims = [1]
     x = ctx.array(xs) if ctx.sym else np.array(xs, dtype=float)
     on_node = any(bool(xs[d] == float(gv)) for d in range(dim) for gv in grid[d])
